@@ -240,3 +240,89 @@ def check_est_set(chk, facts):
         n += 1
         chk.ob(rule, "EST set:" + src, ok, det, where=f.where(sites[0][1][1].get("l") if sites else None), fn=f.name, key="%s:EST set:%s" % (rule, src))
     chk.floor(rule, "EST policy set components", n, 6)
+
+
+def endo_variants(chk, rule, facts, fname, adt, adt_suffix, tag):
+    """A function that rewrites a value of enum `adt` (filling slots, linking) keeps the constructor: in the arm of variant V every
+    value of `adt` it builds is again V, with each field derived from V's field in the same position."""
+    from lib import hom
+    f = get_fn(chk, facts, rule, fname)
+    r = facts.adts.get(adt)
+    if f is None or r is None:
+        if f is not None:
+            chk.lost(rule, adt)
+        return 0
+    ev = hom.arm_events(facts, f, adt_suffix, lambda c, t: None, include_aggs=(adt,))
+    if ev is None:
+        chk.lost(rule, "match on %s in %s" % (adt.split("::")[-1], short(fname)))
+        return 0
+    last = adt.split("::")[-1]
+    n = 0
+    from lib import cfg as _cfg
+    sw = ev["switch"]
+    reach = {vi: _cfg.reachable(f, arm["target"], cut_blocks={sw}) for vi, arm in ev["arms"].items()}
+    common = set.intersection(*reach.values()) if len(reach) > 1 else set()
+    Lall = shape.Labels(f, None, shape.variant_field_seed(adt_suffix))
+    for vi, arm in sorted(ev["arms"].items()):
+        v = r["variants"][vi]
+        vn = v["name"]
+        probs = []
+        # everything this variant's arm can build before the arms join (or-patterns share a body that dominance does not see)
+        built = []
+        for bb in sorted(reach[vi] - common):
+            for s_ in f.blocks[bb]["st"]:
+                if s_[0] == "a" and s_[2][0] == "agg" and s_[2][1][0] == "adt" and s_[2][1][1] == adt:
+                    built.append({"ctor": "%s::%s" % (last, s_[2][1][2]), "args": [Lall.operand_labels(o) for o in s_[2][2]], "fields": s_[2][1][3], "line": s_[3]})
+        for e in built:
+            bv = e["ctor"].split("::")[1]
+            if bv != vn:
+                probs.append("builds %s" % bv)
+                continue
+            for i, a in enumerate(e["args"]):
+                labs = {x for x in a if x.startswith(vn + ".")}
+                want = "%s.%s" % (vn, (e["fields"] or [])[i] if e["fields"] else i)
+                if labs and want not in labs:
+                    probs.append("field %s is filled from %s" % (i, sorted(labs)))
+        n += 1
+        chk.ob(rule, "%s:%s" % (tag, vn), not probs, "%s: the %s arm %s" % (tag, vn, ("keeps the variant and its fields in place" if built else "passes the value through") if not probs else "; ".join(sorted(set(probs)))),
+               where=f.where(built[0]["line"] if built else None), fn=f.name, key="%s:%s:%s:%s" % (rule, tag, vn, ";".join(sorted(set(probs)))))
+    return n
+
+
+def fold_order(chk, rule, facts, fname, tag):
+    """A clause list is folded so that clauses keep their source order: with a reversed iteration the closure is and(next, acc), without and(acc, next)."""
+    from lib.slice import leaf_producers
+    f = get_fn(chk, facts, rule, fname)
+    if f is None:
+        return 0
+    rev = any(callee(t).endswith("::rev") for _, t in f.calls())
+    folds = []
+    for g in facts.closures_of(f.name):
+        if g.nargs != 3:
+            continue
+        for b, t in g.calls():
+            if callee(t).split("::")[-1] == "and" and len(t[2]) >= 3:
+                a1 = sorted(x for x in leaf_producers(g, t[2][1]) if x.startswith("param"))
+                a2 = sorted(x for x in leaf_producers(g, t[2][2]) if x.startswith("param"))
+                folds.append((a1, a2))
+    ok = bool(folds) and all((a1 == ["param:3"] and a2 == ["param:2"]) if rev else (a1 == ["param:2"] and a2 == ["param:3"]) for a1, a2 in folds)
+    chk.ob(rule, tag, ok, "%s: clauses are folded %s with and(%s): source order kept: %s" % (tag, "from the right (rev)" if rev else "from the left", folds, ok), where=f.where(), fn=f.name,
+           key="%s:%s" % (rule, tag))
+    return 1
+
+
+def check_pst(chk, facts):
+    rule = "C06.FIELDS"
+    PC = "cedar_policy_core::pst::constraints::"
+    n = 0
+    for ty in ("PrincipalConstraint", "ResourceConstraint"):
+        n += endo_variants(chk, rule, facts, PC + ty + "::link", PC + ty, "pst::constraints::" + ty, "pst " + ty + "::link")
+    AP = "cedar_policy_core::ast::policy::"
+    for ty in ("PrincipalConstraint", "ResourceConstraint"):
+        n += endo_variants(chk, rule, facts, AP + ty + "::with_filled_slot", AP + "PrincipalOrResourceConstraint", "ast::policy::PrincipalOrResourceConstraint", "ast " + ty + "::with_filled_slot")
+    ES = "cedar_policy_core::est::scope_constraints::"
+    for ty in ("PrincipalConstraint", "ResourceConstraint"):
+        n += endo_variants(chk, rule, facts, ES + ty + "::link", ES + ty, "est::scope_constraints::" + ty, "est " + ty + "::link")
+    chk.floor(rule, "constraint rewriting arms", n, 20)
+    for fname, tag in (("cedar_policy_core::pst::ast_conversions::<impl std::convert::TryFrom<cedar_policy_core::pst::policy::Template> for cedar_policy_core::ast::policy::Template>::try_from", "PST -> AST clauses fold"),):
+        fold_order(chk, rule, facts, fname, tag)
